@@ -167,7 +167,7 @@ def run_one(m):
             res["status"] = "patch-failed"
             return res
         t = subprocess.run(["/venv/bin/python", "-m", "pytest", "-q", "-x", "-p", "no:cacheprovider", "--no-cov"], cwd=w,
-                           capture_output=True, text=True, timeout=600)
+                           capture_output=True, text=True, timeout=120)
         if "passed" not in t.stdout.splitlines()[-1] or "failed" in t.stdout.splitlines()[-1] or t.returncode != 0:
             res["status"] = "killed-by-tests"
             return res
@@ -176,7 +176,7 @@ def run_one(m):
         env = dict(os.environ, VERIF_REPO=w, VERIF_NO_COQCHK="1")
         for p in m["props"]:
             try:
-                c = subprocess.run([os.path.join(V, "check"), p, "quick"], cwd=V, env=env, capture_output=True, text=True, timeout=1500)
+                c = subprocess.run([os.path.join(V, "check"), p, "quick"], cwd=V, env=env, capture_output=True, text=True, timeout=700)
                 viol = [l for l in c.stdout.splitlines() if l.startswith("VIOLATION")]
                 detail = [l.strip() for l in c.stdout.splitlines() if l.startswith("  (")]
                 res["checks"][p] = {"exit": c.returncode, "violations": len(viol),
@@ -204,8 +204,10 @@ def run(nworkers, limit=None):
     index = json.load(open(os.path.join(OUT, "index.json")))
     if limit:
         index = index[:limit]
+    from concurrent.futures import as_completed
     with ThreadPoolExecutor(nworkers) as ex:
-        for r in ex.map(run_one, index):
+        for fut in as_completed([ex.submit(run_one, m) for m in index]):
+            r = fut.result()
             tag = r.get("status")
             if tag == "survived-tests":
                 tag = "CAUGHT" if r.get("caught") else "SURVIVED-ALL"
